@@ -204,7 +204,6 @@ def observe_dna(spec, js, tree, nodes, opt_tuples, errs) -> dict:
         row.append(INACTIVE if v is None else (project(v) if isinstance(v, DNA) else ['list', len(v), []]))
       except Exception as e:  # pylint: disable=broad-except
         row.append(['!', 0, []])
-        errs.append(f'lookup:{type(e).__name__}')
     rec['lookups'].append(row)
   named = {}
   multis = []
@@ -225,7 +224,6 @@ def observe_dna(spec, js, tree, nodes, opt_tuples, errs) -> dict:
         row.append([INACTIVE] if v is None else [INACTIVE if x is None else project(x) for x in v])
       except Exception as e:  # pylint: disable=broad-except
         row.append([['!', 0, []]])
-        errs.append(f'lookup_multi:{type(e).__name__}')
     rec['multis'].append(row)
   for name, targets in named.items():
     if len(targets) != 1:
@@ -236,7 +234,6 @@ def observe_dna(spec, js, tree, nodes, opt_tuples, errs) -> dict:
       rec['names'].append([id_tokens(targets[0].id), [INACTIVE if x is None else project(x) for x in vs]])
     except Exception as e:  # pylint: disable=broad-except
       rec['names'].append([id_tokens(targets[0].id), [['!', 0, []]]])
-      errs.append(f'lookup_name:{type(e).__name__}')
   # the default dictionary view, keyed by decision point
   try:
     for k, v in d.to_dict('dna_spec', 'value', 'subchoice', True).items():
@@ -324,7 +321,7 @@ def observe_chain(spec, js, start_tree, pool, nodes, length, rng, errs) -> dict:
 def observe_c12(entry: dict, seed: int, opts: dict) -> dict:
   js = entry['spec']
   errs: List[str] = []
-  o: Dict[str, Any] = {'spec': js, 'dpids': [], 'dnas': [], 'chains': [], 'errs': errs}
+  o: Dict[str, Any] = {'spec': js, 'index': entry['index'], 'dpids': [], 'dnas': [], 'chains': [], 'errs': errs}
   try:
     spec = geno.build_space(js, use_locations=True)
     nodes = spec_nodes(spec)
